@@ -1,7 +1,7 @@
 /-
   C14 — executable model of the conversions between the two parameter-list forms in
     ast/src/generic.rs      ArgWithDefault::{from_arg, as_arg, to_arg, into_arg}
-                            Arguments::{split_kwonlyargs, to_python_arguments, into_python_arguments}
+                            Arguments::{defaults, split_kwonlyargs, to_python_arguments, into_python_arguments}
                             PythonArguments::into_arguments,  From<Arguments> for PythonArguments
     ast/src/gen/generic.rs  struct Arg, ArgWithDefault, Arguments, PythonArguments
 
@@ -59,6 +59,11 @@ def asArg (p : ParamD) : Param := p.arg
 
 /-- `ArgWithDefault::to_arg` / `into_arg` (they differ only in cloning) -/
 def toArg (p : ParamD) : Param × Option Nat := (p.arg, p.default)
+
+/-- `Arguments::defaults()`:
+    `self.posonlyargs.iter().chain(self.args.iter()).filter_map(|arg| arg.default.as_ref().map(|e| e.as_ref()))`
+    — the defaults of the positional-only, then of the positional parameters, in order. -/
+def defaults (a : Arguments) : List Nat := (a.posonly ++ a.args).filterMap (fun arg => arg.default)
 
 /-! ## Arguments → PythonArguments -/
 
